@@ -218,3 +218,73 @@ export function genSplitProject(rng, p) {
   const proj = [A("proj"), [A("exports"), ...exps], ...fileTerms];
   return { proj, files: fileTexts, expect: A(expect), breakKind };
 }
+
+// ---------- C14: file variants for edit histories ----------
+function fixImports(text, from, rng) { return text.replace(/import\(([^")]*)\)/g, (m, f) => `import("${specOf(from, f === "?" ? null : f, rng)}")`); }
+export function renderFileTerm(name, terms, exps, rng) { // TypeScript text of (file name stmt…) [+ the buildParsers call]
+  const lines = [];
+  const sp = (t) => JSON.stringify(specOf(name, isAtom(t, "none") ? null : t, rng));
+  for (const s of terms) {
+    switch (head(s)) {
+      case "decl": lines.push((s[1].s === "true" ? "export " : "") + fixImports(tsOfDecl(s[2]), name, rng)); break;
+      case "export-default-iface": lines.push("export default " + fixImports(tsOfDecl(s[1]), name, rng)); break;
+      case "import-named": lines.push(`import { ${s[2] === s[1] ? s[1] : s[2] + " as " + s[1]} } from ${sp(s[3])};`); break;
+      case "import-star": lines.push(`import * as ${s[1]} from ${sp(s[2])};`); break;
+      case "import-default": lines.push(`import ${s[1]} from ${sp(s[2])};`); break;
+      case "export-local": lines.push(`export { ${s[1] === s[2] ? s[1] : s[1] + " as " + s[2]} };`); break;
+      case "export-from": lines.push(`export { ${s[1] === s[2] ? s[1] : s[1] + " as " + s[2]} } from ${sp(s[3])};`); break;
+      case "export-ns": lines.push(`export * as ${s[1]} from ${sp(s[2])};`); break;
+      case "export-all": lines.push(`export * from ${sp(s[1])};`); break;
+      case "export-default": lines.push(`export default ${s[1]};`); break;
+    }
+  }
+  if (exps) lines.push(`parse.buildParsers<{ ${exps.map(([n, t]) => `${n}: ${fixImports(tsOf(t), name, rng)}`).join(", ")} }>();`);
+  return lines.join("\n") + "\n";
+}
+// (watch id (files (file "<name>" (var "<text>" <term>)…)…) (ops (u "<file>" k) | (r) …))
+//   term: broken | (src (exports …)? stmt…)   — `exports` only for entry.ts
+export function genWatch(rng, p) {
+  const sp = genSplitProject(rng, p);
+  const exps0 = sp.proj[1].slice(1);
+  const fileTerms = sp.proj.slice(2); // (file name stmt…)
+  const files = [];
+  for (const ft of fileTerms) {
+    const name = ft[1], stmts = ft.slice(2), isEntry = name === "entry.ts";
+    const text0 = sp.files.find(([n]) => n === name)[1];
+    const mk = (st, ex) => [A("src"), ...(isEntry ? [[A("exports"), ...ex]] : []), ...st];
+    const vars = [[A("var"), text0, mk(stmts, exps0)]];
+    // edited but valid: one declaration becomes `string` (or the first export becomes `number`)
+    {
+      const di = stmts.map((s, i) => (head(s) === "decl" ? i : -1)).filter((i) => i >= 0);
+      let st = stmts, ex = exps0;
+      if (di.length && (!isEntry || rng.chance(1, 2))) { const i = rng.pick(di); const d = stmts[i][2]; st = stmts.map((s, j) => (j === i ? [s[0], s[1], [A("alias"), d[1], d[2], A(rng.pick(["string", "number", "boolean"]))]] : s)); }
+      else if (isEntry) ex = [[exps0[0][0], A(rng.pick(["number", "boolean"]))], ...exps0.slice(1)];
+      else st = [...stmts, [A("decl"), A("true"), [A("alias"), "Extra" + rng.below(100), [], A("number")]]];
+      vars.push([A("var"), renderFileTerm(name, st, isEntry ? ex : null, rng), mk(st, ex)]);
+    }
+    // unresolvable: a reference to a name imported from a file that does not export it (or from nowhere)
+    {
+      const other = rng.chance(1, 3) ? A("none") : rng.pick(fileTerms)[1];
+      const imp = [A("import-named"), "GhostW", "GhostW", other === name ? A("none") : other];
+      const di = stmts.map((s, i) => (head(s) === "decl" && head(s[2]) === "alias" ? i : -1)).filter((i) => i >= 0);
+      let st = [imp, ...stmts], ex = exps0;
+      if (isEntry && (!di.length || rng.chance(1, 2))) ex = [[exps0[0][0], [A("union"), exps0[0][1], [A("ref"), "GhostW"]]], ...exps0.slice(1)];
+      else if (di.length) { const i = rng.pick(di) + 1; const d = st[i][2]; st = st.map((s, j) => (j === i ? [s[0], s[1], [d[0], d[1], d[2], [A("union"), d[3], [A("ref"), "GhostW"]]]] : s)); }
+      else st = [...st, [A("decl"), A("true"), [A("alias"), "UsesGhost", [], [A("ref"), "GhostW"]]]];
+      vars.push([A("var"), renderFileTerm(name, st, isEntry ? ex : null, rng), mk(st, ex)]);
+    }
+    // syntactically broken
+    vars.push([A("var"), text0 + rng.pick(["type Broken = {;\n", "export const = ;\n", "interface { \n", "type X = <<;\n"]), A("broken")]);
+    files.push([A("file"), name, ...vars]);
+  }
+  const ops = [];
+  const n = 3 + rng.below(10);
+  for (let i = 0; i < n; i++) {
+    if (rng.chance(1, 3)) ops.push([A("r")]);
+    else { const f = rng.pick(files); ops.push([A("u"), f[1], A(String(rng.below(f.length - 2)))]); }
+  }
+  ops.push([A("r")]);
+  // a common end game: repair everything, rebuild
+  if (rng.chance(1, 2)) { for (const f of files) if (rng.chance(2, 3)) ops.push([A("u"), f[1], A(String(rng.below(2)))]); ops.push([A("r")]); }
+  return [[A("files"), ...files], [A("ops"), ...ops]];
+}
